@@ -2,8 +2,14 @@
 //! Robustness streams (FRAMEWORK.md): stretch targets beyond 256 / 1024 / 4096 elements and axis lengths 7..17, zero-length
 //! axes, the element-type sweep (byte-sized types, floats with -0.0 / +0.0 / NaN / subnormals compared bit-wise, integers
 //! beyond 2^53, String), both receivers, the same call twice.
+//! Part 2: hidden state (`seq` lines = several calls on one thread: hash-collision shape pairs, narrowed axis lengths, value
+//! permutations, failing-then-valid; an A-B-A re-run of the previous case after every case), huge targets (16 384 .. 196 611
+//! elements, axes above 65 536) with a harness-native odometer reference that is compared with the model on every other case,
+//! every axis length 1..300, the same object on both sides, ranks 5..8, lists of up to 70 arrays.
 use arrharness::*;
+use std::cell::RefCell;
 use std::panic::{catch_unwind, AssertUnwindSafe};
+use std::sync::atomic::{AtomicUsize, Ordering};
 
 // ================================================================ element-type images
 
@@ -142,25 +148,47 @@ fn variant<I: Image>(c: &Call, base: &Out<Ans<i64>>, plain: bool, chained: bool)
 /// the canonical answer text of a case plus the robustness streams: the same call a second time, the Result receiver, the
 /// element-type sweep.  Results of up to 600 elements: every image on both receivers; larger ones: i64 / u8 on both receivers,
 /// bool / the two f64 images on the plain one.
-fn observe(c: &Call) -> String {
+fn observe(c: &Call) -> (String, String, Out<Ans<i64>>) {
     let base = call::<I64>(c, false).expect("plain form exists");
     let text = show_out(&base);
     let size = match &base { Out::Ok(Ans::Arr(p)) => p.elems.len(), Out::Ok(Ans::Pairs(p)) => p.elems.len(), Out::Ok(Ans::List(v)) => v.iter().map(|p| p.elems.len()).sum(), _ => 0 };
+    let d = robust(c, &base, size);
+    match d { Some(d) => (format!("{d}; plain Array<i64> call: {}", truncate(&text, 300)), text, base), None => (text.clone(), text, base) }
+}
+
+/// the robustness streams of one case, given the canonical answer: `Some(text)` = a divergence.  Results above 20 000 elements:
+/// the second call on i64 always; alternately the Result receiver + the f64 value-class image / the u8 image.
+fn robust(c: &Call, base: &Out<Ans<i64>>, size: usize) -> Option<String> {
     let small = size <= 600;
-    let d = variant::<I64>(c, &base, true, true)
-        .or_else(|| variant::<U8>(c, &base, true, true))
-        .or_else(|| variant::<F64z>(c, &base, true, small))
-        .or_else(|| variant::<F64v>(c, &base, true, small))
-        .or_else(|| variant::<Bool>(c, &base, true, small))
-        .or_else(|| if small { variant::<I8>(c, &base, true, true) } else { None })
-        .or_else(|| if small { variant::<U8Hi>(c, &base, true, true) } else { None })
-        .or_else(|| if small { variant::<I64Big>(c, &base, true, true) } else { None })
-        .or_else(|| if small { variant::<U16>(c, &base, true, true) } else { None })
-        .or_else(|| if small { variant::<I32>(c, &base, true, true) } else { None })
-        .or_else(|| if small { variant::<F32>(c, &base, true, true) } else { None })
-        .or_else(|| if small { variant::<Usize>(c, &base, true, true) } else { None })
-        .or_else(|| if small { variant::<Str>(c, &base, true, true) } else { None });
-    match d { Some(d) => format!("{d}; plain Array<i64> call: {}", truncate(&text, 300)), None => text }
+    let huge = size > 20_000;
+    // huge results: the second call always; the Result receiver and the f64 image / the u8 image on every other huge case
+    let rot = if huge { HUGE_ROT.fetch_add(1, Ordering::Relaxed) % 2 } else { 0 };
+    variant::<I64>(c, base, true, !huge || rot == 0)
+        .or_else(|| if huge && rot == 0 { None } else { variant::<U8>(c, base, true, !huge) })
+        .or_else(|| if huge { None } else { variant::<F64z>(c, base, true, small) })
+        .or_else(|| if huge && rot == 1 { None } else { variant::<F64v>(c, base, true, small) })
+        .or_else(|| if huge { None } else { variant::<Bool>(c, base, true, small) })
+        .or_else(|| aliased::<I64>(c, base))
+        .or_else(|| aliased::<F64v>(c, base))
+        .or_else(|| if small { variant::<I8>(c, base, true, true) } else { None })
+        .or_else(|| if small { variant::<U8Hi>(c, base, true, true) } else { None })
+        .or_else(|| if small { variant::<I64Big>(c, base, true, true) } else { None })
+        .or_else(|| if small { variant::<U16>(c, base, true, true) } else { None })
+        .or_else(|| if small { variant::<I32>(c, base, true, true) } else { None })
+        .or_else(|| if small { variant::<F32>(c, base, true, true) } else { None })
+        .or_else(|| if small { variant::<Usize>(c, base, true, true) } else { None })
+        .or_else(|| if small { variant::<Str>(c, base, true, true) } else { None })
+}
+
+/// aliasing: when both operands of `broadcast` / `zip` are the same array, the call with the SAME OBJECT on both sides
+/// (`a.broadcast(&a)`) must give what the call on two separately built operands gives
+fn aliased<I: Image>(c: &Call, base: &Out<Ans<i64>>) -> Option<String> {
+    let v = match c {
+        Call::Broadcast(a, b) if a == b => { let x = build::<I>(a); run(|| x.broadcast(&x).map(|r| Ans::Pairs(pairs(&r)))) }
+        Call::Zip(a, b) if a == b => { let x = build::<I>(a); run(|| x.zip(&x).map(|r| Ans::Pairs(pairs(&r)))) }
+        _ => return None,
+    };
+    disagree::<I>(base, &v).map(|d| format!("ALIAS-DIVERGENCE the call with the same object on both sides (element type {}) gives {d}", I::NAME))
 }
 
 /// can `s` be stretched to `t`? Same rule as the Lean `stretchable`: trailing alignment; every source axis equals the
@@ -228,6 +256,18 @@ fn decode_ljust(r: &Array<String>) -> Option<String> {
 }
 
 fn gen(tier: &str, seed: u64, out: &mut dyn FnMut(String)) {
+    let mut buf: Vec<String> = vec![];
+    gen_all(tier, seed, &mut |l| buf.push(l));
+    // two bookkeeping lines: how often the harness-native reference was compared with the model.  The first one sits where the
+    // summary of lib.rs takes its last sample (so that the count shows up in the evidence), the second one closes the run.
+    let stride = ((buf.len() + 2) / 12).max(1);
+    let at = (11 * stride).min(buf.len());
+    buf.insert(at, "oracle_report".to_string());
+    buf.push("oracle_report final".to_string());
+    for l in buf { out(l); }
+}
+
+fn gen_all(tier: &str, seed: u64, out: &mut dyn FnMut(String)) {
     let thorough = tier == "thorough";
     // corpus of past failures first
     for l in ["broadcast i2,3 i1+1000", "broadcast i2,3 i3+1000", "broadcast_to i3 2,2,3", "broadcast_to i2 2,3", "broadcast_to i2,1,3 2,2,3",
@@ -320,6 +360,7 @@ fn gen(tier: &str, seed: u64, out: &mut dyn FnMut(String)) {
         out(format!("h3 {} {} {}", tag(s), tag_off(&[], 1000), tag_off(&[], 2000)));
     }
     gen_robust(thorough, &mut rng, out);
+    gen_part2(thorough, &mut rng, out);
 }
 
 /// `s` with the axes selected by `unit` set to length 1
@@ -467,57 +508,513 @@ fn gen_robust(thorough: bool, rng: &mut Rng, out: &mut dyn FnMut(String)) {
     }
 }
 
-fn exec(op: &str, args: &[&str], expected: &str) -> Option<Verdict> {
+
+// ================================================================ robustness streams, part 2
+
+/// estimated seconds of the list-backed model for one stretch of `s` to `t` (measured: ~0.5 us per target element plus ~1 ns per
+/// source element walked; [70000] -> [2,70000] takes 9.5 s)
+fn stretch_secs(s: &[usize], t: &[usize]) -> f64 {
+    let (n, m) = (count(t) as f64, count(s) as f64);
+    if count(s) == count(t) { n * 0.3e-6 } else { n * (0.5e-6 + m * 1.0e-9) }
+}
+
+/// emits a huge case either as an ordinary line (full model answer) or, when the model would be too slow, as an `n` line
+struct Emit { per_case: f64, budget: f64, spent: f64 }
+impl Emit {
+    fn put(&mut self, line: String, secs: f64, out: &mut dyn FnMut(String)) {
+        if secs <= self.per_case && self.spent + secs <= self.budget { self.spent += secs; out(line) } else { out(format!("n {line}")) }
+    }
+    fn to(&mut self, s: &[usize], t: &[usize], out: &mut dyn FnMut(String)) { self.put(format!("broadcast_to {} {}", tag(s), show_list(t)), stretch_secs(s, t), out) }
+    fn zip(&mut self, a: &[usize], b: &[usize], out: &mut dyn FnMut(String)) { self.put(format!("zip {} {}", tag(a), tag_off(b, 1_000_000)), stretch_secs(b, a) + count(a) as f64 * 0.5e-6, out) }
+    fn broadcast(&mut self, a: &[usize], b: &[usize], out: &mut dyn FnMut(String)) {
+        let secs = match o_shape2(a, b) { Some(fs) => stretch_secs(a, &fs) + stretch_secs(b, &fs) + count(&fs) as f64 * 0.5e-6, None => 0.0 };
+        self.put(format!("broadcast {} {}", tag(a), tag_off(b, 1_000_000)), secs, out)
+    }
+    fn arrays(&mut self, l: &[&[usize]], out: &mut dyn FnMut(String)) {
+        let fs = l.iter().try_fold(vec![], |fs: Vec<usize>, s| o_shape2(&fs, s));
+        let secs = fs.map_or(0.0, |fs| l.iter().map(|s| stretch_secs(s, &fs)).sum());
+        let text: Vec<String> = l.iter().enumerate().map(|(k, s)| if k == 0 { tag(s) } else { tag_off(s, 1_000_000 * k as i64) }).collect();
+        self.put(format!("broadcast_arrays {}", text.join(";")), secs, out)
+    }
+}
+
+/// targets of 16 384 .. 196 611 elements: the lib list plus element counts exactly at / next to 2^14, 2^15, 2^16, axes of
+/// 65 535 / 65 536 / 65 537, ranks 2..5 with two and more non-unit source axes
+fn c03_huge_targets(thorough: bool) -> Vec<Vec<usize>> {
+    let mut v = huge_shapes();
+    v.extend(vec![vec![128, 256], vec![2, 128, 128], vec![181, 182], vec![8, 8, 8, 8, 9], vec![65537], vec![3, 65537], vec![65536, 2],
+                  vec![16384], vec![32768], vec![32769], vec![3, 5, 7, 11, 13], vec![17, 31, 37]]);
+    if thorough { v.extend(vec![vec![32, 32, 33], vec![65535, 2], vec![2, 16383], vec![41, 20, 41], vec![2, 65536], vec![65537, 3], vec![2, 3, 65537 / 3 + 1], vec![100, 1000], vec![47, 53, 59], vec![7, 6, 5, 4, 3, 2, 7], vec![131072], vec![65538], vec![255, 257], vec![4, 8192, 3]]); }
+    v.sort(); v.dedup();
+    v
+}
+
+fn emit_huge_target(b: &[usize], k: usize, thorough: bool, em: &mut Emit, out: &mut dyn FnMut(String)) {
+    for (j, s) in sources_of(b).iter().enumerate() {
+        em.to(s, b, out);
+        if thorough || (j + k) % 3 == 0 { em.zip(b, s, out); }
+        if thorough || (j + k) % 3 == 1 { em.broadcast(b, s, out); }
+        if thorough || (j + k) % 3 == 2 { em.broadcast(s, b, out); }
+    }
+    if b.len() >= 2 {
+        let mut pairs: Vec<(Vec<usize>, Vec<usize>)> = vec![(unitize(b, |k| k % 2 == 0), unitize(b, |k| k % 2 == 1))];
+        for a in 0..b.len() { pairs.push((unitize(b, |j| j == a), unitize(b, |j| j != a))); }
+        pairs.push((b[1..].to_vec(), unitize(b, |k| k != 0)));
+        pairs.sort(); pairs.dedup();
+        for (j, (s, t)) in pairs.iter().enumerate() {
+            if thorough || (j + k) % 2 == 0 { em.broadcast(s, t, out); } else { em.broadcast(t, s, out); }
+            if thorough { em.broadcast(t, s, out); }
+            if thorough || (j + k) % 2 == 1 { em.arrays(&[s, t], out); }
+            if thorough || (j + k) % 4 == 0 { em.arrays(&[t, &[1], s], out); }
+        }
+    }
+    // an added leading axis on the whole array: a huge source with every axis non-unit
+    let mut t2 = vec![2]; t2.extend(b);
+    em.to(b, &t2, out);
+    if thorough { let mut t3 = vec![3, 1]; t3.extend(b); em.to(b, &t3, out); em.broadcast(b, &unitize(&t2, |k| k != 0), out); }
+    // equal shapes: the pairing arm of broadcast / zip, the reshape arm of broadcast_to, the same object on both sides
+    em.broadcast(b, b, out);
+    em.zip(b, b, out);
+    out(format!("broadcast {} {}", tag(b), tag(b)));
+    let mut t1 = vec![1]; t1.extend(b);
+    em.to(b, &t1, out);
+    // a target the source cannot be stretched to
+    let mut bad = b.to_vec(); let l = bad.len() - 1; bad[l] += 1;
+    em.to(b, &bad, out);
+}
+
+fn seq3(a: &str, b: &str, out: &mut dyn FnMut(String)) {
+    out(format!("seq {a} / {b} / {a}"));
+    out(format!("seq {b} / {a} / {b}"));
+}
+
+/// FRAMEWORK.md robustness streams, part 2: hidden state, huge sizes, exact lengths, aliasing, high ranks and long lists
+fn gen_part2(thorough: bool, rng: &mut Rng, out: &mut dyn FnMut(String)) {
+    // ---- (6) hidden state.  Every `seq` line is self-contained: its calls run one after the other on the executing thread.
+    // (6a) shape pairs that collide under the polynomial hashes h*m + dim, m = 31, 33, 37, 131, 257: as two SOURCES of one target,
+    //      as two TARGETS of one source, as the operands of one broadcast / broadcast_arrays; both orders, A-B-A
+    let mut cols = collision_shape_pairs();
+    for &m in &[31usize, 33, 37, 131, 257] {
+        cols.push((vec![2, 1], vec![1, 1 + m]));
+        cols.push((vec![3, 2, 1], vec![3, 1, 1 + m]));
+        cols.push((vec![2, 1, 3], vec![1, 1 + m, 3]));
+        cols.push((vec![2, 2, 1, 1], vec![2, 1, 1 + m, 1]));
+        for k in 1..=3usize { cols.push((vec![k + 1, 1], vec![k, 1 + m])); cols.push((vec![1, k + 1, 1], vec![1, k, 1 + m])); }
+    }
+    // keys without a separator between source and target shape: (s ++ t) read with another split
+    cols.push((vec![3], vec![3, 1]));
+    cols.sort(); cols.dedup();
+    for (p, q) in &cols {
+        if let Some(t) = o_shape2(p, q) {
+            if &t != p && &t != q {
+                let ts = show_list(&t);
+                seq3(&format!("broadcast_to {} {ts}", tag(p)), &format!("broadcast_to {} {ts}", tag(q)), out);
+                seq3(&format!("zip {} {}", tag(&t), tag_off(p, 100000)), &format!("zip {} {}", tag(&t), tag_off(q, 100000)), out);
+                out(format!("broadcast {} {}", tag(p), tag_off(q, 100000)));
+                out(format!("broadcast {} {}", tag(q), tag_off(p, 100000)));
+                out(format!("broadcast_arrays {};{}", tag(p), tag_off(q, 100000)));
+                out(format!("broadcast_arrays {};{};{}", tag(q), tag_off(&[1], 100000), tag_off(p, 200000)));
+            }
+        }
+        // one source, the two colliding shapes as targets
+        let mut srcs: Vec<Vec<usize>> = vec![vec![1], vec![1; p.len()]];
+        if p.last() == q.last() && p.len() == q.len() { srcs.push(vec![*p.last().unwrap()]); srcs.push(unitize(p, |k| k + 1 != p.len())); }
+        if p[0] == q[0] && p.len() == q.len() { srcs.push(unitize(p, |k| k != 0)); }
+        srcs.sort(); srcs.dedup();
+        for s in &srcs {
+            if stretchable(s, p) && stretchable(s, q) {
+                seq3(&format!("broadcast_to {} {}", tag(s), show_list(p)), &format!("broadcast_to {} {}", tag(s), show_list(q)), out);
+            }
+        }
+        // [3] -> [1,3,3] against [3,1] -> [3,3]: the same dims in the same order
+        if p.len() + 1 == q.len() && q.last() == Some(&1) {
+            let (mut t1, mut t2) = (vec![1], q.clone()); t1.extend(p); t1.extend(p); let l = t2.len() - 1; t2[l] = p[p.len() - 1];
+            seq3(&format!("broadcast_to {} {}", tag(p), show_list(&t1)), &format!("broadcast_to {} {}", tag(q), show_list(&t2)), out);
+        }
+    }
+    // (6b) axis lengths that look alike after a narrowing cast (c + 2^8, c + 2^16) and transposed / equal-count shape pairs
+    //      (keys built from element counts, sorted dims, sums or xors of dims)
+    for c in 1..=3usize {
+        for w in [c + 256, c + 65536] {
+            seq3(&format!("broadcast_to i2,1 2,{c}"), &format!("broadcast_to i2,1 2,{w}"), out);
+            seq3(&format!("broadcast_to i1 {c},2"), &format!("broadcast_to i1 {w},2"), out);
+            seq3(&format!("zip i2,{c} i2,1+100000"), &format!("zip i2,{w} i2,1+100000"), out);
+            if w < 1000 {
+                seq3(&format!("broadcast_to i{c} 2,{c}"), &format!("broadcast_to i{w} 2,{w}"), out);
+                seq3(&format!("broadcast i{c},1 i1,2+100000"), &format!("broadcast i{w},1 i1,2+100000"), out);
+            }
+        }
+    }
+    let small2 = shapes(1, 3, 1, 3);
+    for s in &small2 { for t in &small2 {
+        // the same multiset of axis lengths on both sides, in another order
+        let (mut a, mut b) = (s.clone(), t.clone()); a.sort(); b.sort();
+        if s == t || a != b { continue; }
+        for src in [vec![1], unitize(s, |k| k != 0), unitize(s, |k| k + 1 != s.len())] {
+            let (x, y) = (format!("broadcast_to {} {}", tag(&src), show_list(s)), format!("broadcast_to {} {}", tag(&src), show_list(t)));
+            out(format!("seq {x} / {y} / {x}"));
+        }
+        let (rs, rt): (Vec<usize>, Vec<usize>) = (s.iter().rev().copied().collect(), t.iter().rev().copied().collect());
+        out(format!("seq broadcast {} {} / broadcast {} {}", tag(s), tag_off(&unitize(s, |k| k == 0), 100000), tag(t), tag_off(&unitize(t, |k| k == 0), 100000)));
+        out(format!("seq broadcast_arrays {};{} / broadcast_arrays {};{}", tag(s), tag_off(&rs[..1], 100000), tag(t), tag_off(&rt[..1], 100000)));
+    } }
+    // (6c) the same shapes with other VALUES (a cache that stores results, or is keyed by a checksum of the values: permutations
+    //      and other arrays with the same sum / first element / length)
+    for (a, b) in [("2,1:5,7", "2,1:7,5"), ("3:1,2,3", "3:3,2,1"), ("3:1,2,3", "3:2,2,2"), ("1,2:0,9", "1,2:9,0"), ("2,1:4,4", "2,1:3,5"), ("2,1,2:1,2,3,4", "2,1,2:4,3,2,1"), ("2,1,2:1,2,3,4", "2,1,2:1,3,2,4"),
+                   ("i2,1", "i2,1+500"), ("i1,3", "i1,3+7"), ("i3,1,2", "i3,1,2+1"), ("1:0", "1:1"), ("2,2:1,2,3,4", "2,2:1,3,2,4")] {
+        let sh = parse_arr_raw(a).0;
+        let mut t: Vec<usize> = sh.iter().map(|&d| if d == 1 { 3 } else { d }).collect();
+        if t == sh { t.insert(0, 2); }
+        let ts = show_list(&t);
+        seq3(&format!("broadcast_to {a} {ts}"), &format!("broadcast_to {b} {ts}"), out);
+        seq3(&format!("zip {} {a}", tag_off(&t, 1000)), &format!("zip {} {b}", tag_off(&t, 1000)), out);
+        seq3(&format!("broadcast {a} {}", tag_off(&t, 1000)), &format!("broadcast {b} {}", tag_off(&t, 1000)), out);
+        seq3(&format!("broadcast_arrays {a};{}", tag_off(&t, 1000)), &format!("broadcast_arrays {b};{}", tag_off(&t, 1000)), out);
+        if parse_arr_raw(a).1.iter().chain(parse_arr_raw(b).1.iter()).all(|&v| (0..10000).contains(&v)) {
+            seq3(&format!("h2 {a} {}", tag_off(&t, 1000)), &format!("h2 {b} {}", tag_off(&t, 1000)), out);
+        }
+    }
+    // (6d) a refused call directly followed by an accepted one on related shapes, and back
+    for (bad, good) in [("broadcast_to i3 2,2", "broadcast_to i3 2,3"), ("broadcast_to i2,3 3", "broadcast_to i3 2,3"), ("broadcast i2,3 i2+1000", "broadcast i2,3 i3+1000"),
+                        ("broadcast_arrays i2;i3+1000", "broadcast_arrays i2,1;i3+1000"), ("zip i2 i3+1000", "zip i3 i1+1000"), ("zip i2,3 i2+1000", "zip i2,3 i2,1+1000"),
+                        ("broadcast_to i0 3", "broadcast_to i1 3"), ("broadcast_to i2,0 2,3", "broadcast_to i2,1 2,3"), ("broadcast_arrays i2;i3+1000;i1+2000", "broadcast_arrays i3;i1+1000;i2,1+2000"),
+                        ("h2 i2 i3+1000", "h2 i2,1 i3+1000"), ("h3 i2 i1+1000 i3+2000", "h3 i2,1 i1+1000 i3+2000"), ("broadcast_to i4097 2,4096", "broadcast_to i4096 2,4096")] {
+        seq3(bad, good, out);
+        out(format!("seq {bad} / {bad} / {good} / {good}"));
+    }
+    // (6e) interleaved different shapes: sequences of 4..6 seeded random small calls
+    let n_seq = if thorough { 3000 } else { 400 };
+    for _ in 0..n_seq {
+        let base = rng.shape(1, 3, 4);
+        let mut parts: Vec<String> = vec![];
+        for _ in 0..4 + rng.below(3) {
+            let derive = |rng: &mut Rng| -> Vec<usize> { let k = rng.below(base.len()); base[k..].iter().map(|&d| match rng.below(4) { 0 | 1 => 1, _ => d }).collect() };
+            let (s, t) = (derive(rng), derive(rng));
+            let t_full: Vec<usize> = base[base.len() - t.len().max(s.len())..].to_vec();
+            parts.push(match rng.below(5) {
+                0 => format!("broadcast {} {}", tag(&s), tag_off(&t, 1000)),
+                1 => format!("zip {} {}", tag(&t_full), tag_off(&s, 1000)),
+                2 | 3 => format!("broadcast_to {} {}", tag(&s), show_list(&t_full)),
+                _ => format!("broadcast_arrays {};{}", tag(&s), tag_off(&t, 1000)),
+            });
+        }
+        out(format!("seq {}", parts.join(" / ")));
+    }
+
+    // ---- (7) huge sizes
+    let mut em = if thorough { Emit { per_case: 2.0, budget: 100.0, spent: 0.0 } } else { Emit { per_case: 0.2, budget: 6.0, spent: 0.0 } };
+    // an axis above 65 536 that is NOT stretched, with the full model answer (8.6 .. 9.5 s of model time each; thorough tier only —
+    // the quick tier has these as `n` lines: model shape + harness-native reference)
+    if thorough {
+        for l in ["broadcast_to i65537 2,65537", "broadcast i2,1 i70000+100000", "zip i2,70000 i70000+1000000", "broadcast_arrays i70000;i2,1+1000000", "broadcast_to i70000,1 70000,2"] { out(l.to_string()); }
+    }
+    for (k, b) in c03_huge_targets(thorough).iter().enumerate() { emit_huge_target(b, k, thorough, &mut em, out); }
+    // seeded random huge targets: rank 2..5, 16 384 .. 150 000 elements, random unit axes in the sources
+    let n_huge = if thorough { 60 } else { 6 };
+    let mut made = 0;
+    while made < n_huge {
+        let r = 2 + rng.below(4);
+        let b: Vec<usize> = (0..r).map(|_| 2 + rng.below(if r == 2 { 400 } else if r == 3 { 60 } else { 20 })).collect();
+        if count(&b) < 16384 || count(&b) > 150_000 { continue; }
+        made += 1;
+        let derive = |rng: &mut Rng| -> Vec<usize> { let j = rng.below(2.min(b.len())); b[j..].iter().map(|&d| if rng.below(3) == 0 { 1 } else { d }).collect() };
+        let (s, t, u) = (derive(rng), derive(rng), derive(rng));
+        em.to(&s, &b, out); em.zip(&b, &t, out); em.broadcast(&s, &t, out); em.arrays(&[&s, &t, &u], out);
+    }
+
+    // ---- (8) exact lengths: every axis length 1..300 in the trailing and in an inner position; counts 31, 37, 1000, 1001, primes
+    for l in 1..=300usize {
+        out(format!("broadcast_to i{l} 3,{l}"));
+        out(format!("broadcast_to i3,1 3,{l}"));
+        out(format!("broadcast i2,1,2 i{l},1+100000"));
+        if thorough { out(format!("zip i2,{l},3 i{l},1+100000")); out(format!("broadcast_arrays i{l};i2,1,1+100000;i1,3,1+200000")); }
+    }
+    for b in [vec![31], vec![37], vec![1000], vec![1001], vec![19, 23], vec![29, 31], vec![2, 37], vec![37, 2], vec![3, 31, 2], vec![49, 49], vec![7, 49], vec![49, 7], vec![2, 49, 3], vec![101, 3], vec![3, 127], vec![251, 5]] { emit_big_target(&b, out); }
+
+    // ---- (9) the same object on both sides (`a.broadcast(&a)`, `a.zip(&a)`), also with NaN / -0.0 inside (f64 value-class image)
+    let mut alias: Vec<String> = small2.iter().map(|s| tag(s)).collect();
+    alias.extend(big_shapes().iter().map(|s| tag(s)));
+    alias.extend(zero_shapes().iter().map(|s| tag(s)));
+    alias.extend(["i100,200", "i16385", "i129,131"].iter().map(|s| s.to_string()));
+    alias.extend(["3:2,2,2", "4:0,1,2,3", "2,2:2,3,2,3", "8:0,1,2,3,4,5,6,7", "2,4:7,6,5,4,3,2,1,0", "1:2", "1:3", "2:2,10"].iter().map(|s| s.to_string()));
+    for a in &alias { out(format!("broadcast {a} {a}")); out(format!("zip {a} {a}")); }
+
+    // ---- (10) ranks 5..8 and long lists
+    let n_rank = if thorough { 1500 } else { 150 };
+    for _ in 0..n_rank {
+        let r = 5 + rng.below(4);
+        let b: Vec<usize> = loop { let b: Vec<usize> = (0..r).map(|_| *rng.pick(&[1usize, 1, 2, 2, 3, 4])).collect(); if count(&b) <= 3000 { break b; } };
+        let derive = |rng: &mut Rng| -> Vec<usize> { let j = rng.below(b.len()); b[j..].iter().map(|&d| if rng.below(2) == 0 { 1 } else { d }).collect() };
+        let l: Vec<Vec<usize>> = (0..3 + rng.below(4)).map(|_| derive(rng)).collect();
+        out(format!("broadcast_to {} {}", tag(&l[0]), show_list(&b)));
+        out(format!("zip {} {}", tag(&b), tag_off(&l[1], 100000)));
+        out(format!("broadcast {} {}", tag(&l[0]), tag_off(&l[1], 100000)));
+        out(format!("broadcast_arrays {}", l.iter().enumerate().map(|(k, s)| tag_off(s, 100000 * k as i64)).collect::<Vec<_>>().join(";")));
+    }
+    for n in [5usize, 8, 31, 64, 65, 70] {
+        let pool: [&[usize]; 5] = [&[1], &[2, 1], &[1, 3], &[3], &[1, 1, 1]];
+        let l: Vec<String> = (0..n).map(|k| tag_off(pool[(k * 7 + k / 5) % 5], 1000 * k as i64)).collect();
+        out(format!("broadcast_arrays {}", l.join(";")));
+        let l2: Vec<String> = (0..n).map(|k| tag_off(if k == n - 1 { &[4, 1, 1][..] } else { &[1][..] }, 1000 * k as i64)).collect();
+        out(format!("broadcast_arrays {}", l2.join(";")));
+        // the last member does not fit
+        let l3: Vec<String> = (0..n).map(|k| tag_off(if k == n - 1 { &[2][..] } else { &[3][..] }, 1000 * k as i64)).collect();
+        out(format!("broadcast_arrays {}", l3.join(";")));
+    }
+}
+
+// ================================================================ harness-native reference (huge cases)
+// A direct coordinate formula in plain Rust: an odometer over the target coordinates, the source position rebuilt from the
+// coordinates (added leading axes dropped, 0 on unit axes).  It is compared with the model's full answer on EVERY broadcast /
+// zip / broadcast_to / broadcast_arrays case of a run where it has an opinion (zero-free shapes outside the equal-count open
+// region); on the `n` cases (huge sources, list-backed model too slow) the crate is compared with it and the model gives the shape.
+
+static ORACLE_CHECKED: AtomicUsize = AtomicUsize::new(0);
+static ORACLE_SILENT: AtomicUsize = AtomicUsize::new(0);
+static ORACLE_ONLY: AtomicUsize = AtomicUsize::new(0);
+static ABA_RERUNS: AtomicUsize = AtomicUsize::new(0);
+static HUGE_ROT: AtomicUsize = AtomicUsize::new(0);
+
+fn has_zero(s: &[usize]) -> bool { s.iter().any(|&d| d == 0) }
+fn count(s: &[usize]) -> usize { s.iter().product() }
+/// `e` (shape `s`, zero-free, stretchable to `t`) stretched to `t`
+fn o_stretch(s: &[usize], e: &[i64], t: &[usize]) -> Vec<i64> {
+    let (n, off) = (count(t), t.len() - s.len());
+    let mut out = Vec::with_capacity(n);
+    let mut c = vec![0usize; t.len()];
+    for _ in 0..n {
+        let mut idx = 0;
+        for k in 0..s.len() { idx = idx * s[k] + if s[k] == 1 { 0 } else { c[off + k] }; }
+        out.push(e[idx]);
+        for k in (0..t.len()).rev() { c[k] += 1; if c[k] < t[k] { break; } c[k] = 0; }
+    }
+    out
+}
+fn o_shape2(s: &[usize], t: &[usize]) -> Option<Vec<usize>> {
+    let n = s.len().max(t.len());
+    let mut r = vec![0; n];
+    for k in 0..n {
+        let d1 = if k < s.len() { s[s.len() - 1 - k] } else { 1 };
+        let d2 = if k < t.len() { t[t.len() - 1 - k] } else { 1 };
+        r[n - 1 - k] = if d1 == 1 { d2 } else if d2 == 1 || d1 == d2 { d1 } else { return None };
+    }
+    Some(r)
+}
+const MISMATCH: Out<Ans<i64>> = Out::Err("BroadcastShapeMismatch");
+/// the reference answer of a call; `None` = no opinion (zero-length axes, the equal-count open region, the empty list)
+fn oracle(c: &Call) -> Option<Out<Ans<i64>>> {
+    let arr = |shape: &[usize], elems: Vec<i64>| Piece { shape: shape.to_vec(), elems, consistent: true };
+    match c {
+        Call::To(a, t) => {
+            if has_zero(&a.0) || has_zero(t) { return None; }
+            if stretchable(&a.0, t) { Some(Out::Ok(Ans::Arr(arr(t, o_stretch(&a.0, &a.1, t))))) }
+            else if count(&a.0) == count(t) { None } else { Some(MISMATCH) }
+        }
+        Call::Zip(a, b) => {
+            if has_zero(&a.0) || has_zero(&b.0) { return None; }
+            if stretchable(&b.0, &a.0) {
+                let sb = o_stretch(&b.0, &b.1, &a.0);
+                Some(Out::Ok(Ans::Pairs(Piece { shape: a.0.clone(), elems: a.1.iter().copied().zip(sb).collect(), consistent: true })))
+            } else if count(&a.0) == count(&b.0) { None } else { Some(MISMATCH) }
+        }
+        Call::Broadcast(a, b) => {
+            if has_zero(&a.0) || has_zero(&b.0) { return None; }
+            let Some(fs) = o_shape2(&a.0, &b.0) else { return Some(MISMATCH) };
+            let (sa, sb) = (o_stretch(&a.0, &a.1, &fs), o_stretch(&b.0, &b.1, &fs));
+            Some(Out::Ok(Ans::Pairs(Piece { shape: fs, elems: sa.into_iter().zip(sb).collect(), consistent: true })))
+        }
+        Call::Arrays(l) => {
+            if l.is_empty() || l.iter().any(|a| has_zero(&a.0)) { return None; }
+            let mut fs: Vec<usize> = vec![];
+            for a in l { match o_shape2(&fs, &a.0) { Some(x) => fs = x, None => return Some(MISMATCH) } }
+            Some(Out::Ok(Ans::List(l.iter().map(|a| arr(&fs, o_stretch(&a.0, &a.1, &fs))).collect())))
+        }
+    }
+}
+fn same_piece<E: PartialEq>(a: &Piece<E>, b: &Piece<E>) -> Option<String> {
+    if a.shape != b.shape || a.consistent != b.consistent || a.elems.len() != b.elems.len() { return Some(format!("shape {} ({} elements) instead of {} ({})", show_list(&a.shape), a.elems.len(), show_list(&b.shape), b.elems.len())); }
+    (0..a.elems.len()).find(|&p| a.elems[p] != b.elems[p]).map(|p| format!("flat position {p}"))
+}
+/// where does the crate's answer `v` differ from the reference `o`?  `None` = identical (any two errors agree)
+fn differs(v: &Out<Ans<i64>>, o: &Out<Ans<i64>>) -> Option<String> {
+    match (v, o) {
+        (Out::Panic, Out::Panic) | (Out::Err(_), Out::Err(_)) => None,
+        (Out::Ok(Ans::Arr(a)), Out::Ok(Ans::Arr(b))) => same_piece(a, b).map(|d| match d.strip_prefix("flat position ") { Some(p) => { let p: usize = p.parse().unwrap(); format!("element {} at flat position {p}, the reference says {}", a.elems[p], b.elems[p]) } None => d }),
+        (Out::Ok(Ans::Pairs(a)), Out::Ok(Ans::Pairs(b))) => same_piece(a, b).map(|d| match d.strip_prefix("flat position ") { Some(p) => { let p: usize = p.parse().unwrap(); format!("pair {}/{} at flat position {p}, the reference says {}/{}", a.elems[p].0, a.elems[p].1, b.elems[p].0, b.elems[p].1) } None => d }),
+        (Out::Ok(Ans::List(a)), Out::Ok(Ans::List(b))) => {
+            if a.len() != b.len() { return Some(format!("{} arrays instead of {}", a.len(), b.len())); }
+            (0..a.len()).find_map(|k| same_piece(&a[k], &b[k]).map(|d| format!("array {k}: {d}")))
+        }
+        _ => Some(format!("`{}` where the reference says `{}`", truncate(&show_out(v), 120), truncate(&show_out(o), 120))),
+    }
+}
+
+fn parse_call(op: &str, args: &[&str]) -> Option<Call> {
+    Some(match op {
+        "broadcast" if args.len() == 2 => Call::Broadcast(parse_arr_raw(args[0]), parse_arr_raw(args[1])),
+        "zip" if args.len() == 2 => Call::Zip(parse_arr_raw(args[0]), parse_arr_raw(args[1])),
+        "broadcast_to" if args.len() == 2 => Call::To(parse_arr_raw(args[0]), parse_usize_list(args[1])),
+        "broadcast_arrays" if args.len() == 1 => Call::Arrays(if args[0] == "-" { vec![] } else { args[0].split(';').map(parse_arr_raw).collect() }),
+        _ => return None,
+    })
+}
+/// is the (source, target) pair of the call in the region the statement leaves open (equal count, not a stretch)?
+fn open_region(c: &Call) -> bool {
+    match c {
+        Call::Zip(a, b) => !stretchable(&b.0, &a.0) && count(&a.0) == count(&b.0),
+        Call::To(a, t) => !stretchable(&a.0, t) && count(&a.0) == count(t),
+        _ => false,
+    }
+}
+
+/// one call: the verdict and the canonical plain-receiver text (kept for the A-B-A re-run)
+fn exec_single(op: &str, args: &[&str], expected: &str) -> Option<(Verdict, String)> {
     match op {
-        "broadcast" => {
-            Some(compare_default(observe(&Call::Broadcast(parse_arr_raw(args[0]), parse_arr_raw(args[1]))), expected))
-        }
-        "zip" => {
-            let (a, b) = (parse_arr_raw(args[0]), parse_arr_raw(args[1]));
-            let (sa, sb) = (a.0.clone(), b.0.clone());
-            let obs = observe(&Call::Zip(a, b));
+        "broadcast" | "zip" | "broadcast_to" | "broadcast_arrays" => {
+            let c = parse_call(op, args)?;
+            let (obs, plain, base) = observe(&c);
+            let mut where_ = String::new();
+            // the harness-native reference against the model (chain model -> reference -> crate)
+            match oracle(&c) {
+                None => { ORACLE_SILENT.fetch_add(1, Ordering::Relaxed); }
+                Some(o) => {
+                    if let Some(d) = differs(&base, &o) { where_ = format!("; the crate gives {d}"); }
+                    ORACLE_CHECKED.fetch_add(1, Ordering::Relaxed);
+                    let ot = show_out(&o);
+                    if ot != expected && !(class_of(&ot) == "err" && class_of(expected) == "err") {
+                        return Some((Verdict::Mismatch { observed: obs, detail: format!("ORACLE-VS-MODEL the harness-native reference gives `{}`, the model `{}` (harness defect: the reference is not usable)", truncate(&ot, 300), truncate(expected, 300)) }, plain));
+                    }
+                }
+            }
             // equal count but not a stretch: region the statement leaves open
-            if !stretchable(&sb, &sa) && sa.iter().product::<usize>() == sb.iter().product::<usize>() && obs != expected { return Some(Verdict::Open(obs)); }
-            Some(compare_default(obs, expected))
-        }
-        "broadcast_to" => {
-            let a = parse_arr_raw(args[0]); let t = parse_usize_list(args[1]);
-            let sa = a.0.clone();
-            let obs = observe(&Call::To(a, t.clone()));
-            if !stretchable(&sa, &t) && sa.iter().product::<usize>() == t.iter().product::<usize>() && obs != expected { return Some(Verdict::Open(obs)); }
-            Some(compare_default(obs, expected))
-        }
-        "broadcast_arrays" => {
-            let l: Vec<Raw> = if args[0] == "-" { vec![] } else { args[0].split(';').map(parse_arr_raw).collect() };
-            Some(compare_default(observe(&Call::Arrays(l)), expected))
+            if open_region(&c) && obs != expected { return Some((Verdict::Open(obs), plain)); }
+            Some((match compare_default(obs, expected) { Verdict::Mismatch { observed, detail } => Verdict::Mismatch { observed, detail: format!("{detail}{where_}") }, v => v }, plain))
         }
         // broadcast_h2 observed through `multiply` (a pure lift over it): tag v of the string operand is the text of v,
         // tag 1000+j of the count operand is the count j+1 — the result text gives back both stretched operands
         "h2" => {
-            let (a, b) = (parse_arr_i64(args[0]), parse_arr_i64(args[1]));
-            let (sa, nb) = (str_operand(&a)?, num_operand(&b, 1000, 1)?);
-            let obs = guarded(|| match sa.multiply(&nb) {
-                Ok(r) => if !consistent(&r) { "ok <inconsistent array>".to_string() } else { decode_multiply(&r).map_or(format!("ok <undecodable {:?}>", r.get_elements().unwrap()), |t| format!("ok {}", t)) },
-                Err(e) => format!("err {}", err_name(&e)),
-            });
-            Some(compare_default(obs, expected))
+            let obs = plain_text(op, args)?;
+            Some((compare_default(obs.clone(), expected), obs))
         }
         // broadcast_h3 observed through `ljust`: width tag 1000+j is the width W+1+j, fill tag 2000+k is the character U+0100+k
         "h3" => {
-            let (a, b, c) = (parse_arr_i64(args[0]), parse_arr_i64(args[1]), parse_arr_i64(args[2]));
-            let (sa, nb, cc) = (str_operand(&a)?, num_operand(&b, 1000, W + 1)?, char_operand(&c, 2000)?);
-            let obs = guarded(|| match sa.ljust(&nb, Some(cc.clone())) {
-                Ok(r) => if !consistent(&r) { "ok <inconsistent array>".to_string() } else { decode_ljust(&r).map_or(format!("ok <undecodable {:?}>", r.get_elements().unwrap()), |t| format!("ok {}", t)) },
-                Err(e) => format!("err {}", err_name(&e)),
-            });
-            Some(compare_default(obs, expected))
+            let obs = plain_text(op, args)?;
+            Some((compare_default(obs.clone(), expected), obs))
         }
         _ => None,
     }
 }
 
+/// the canonical answer text of a call on the plain receiver and the i64 tags, nothing else (A-B-A re-run)
+fn plain_text(op: &str, args: &[&str]) -> Option<String> {
+    match op {
+        "h2" => {
+            let (a, b) = (parse_arr_i64(args[0]), parse_arr_i64(args[1]));
+            let (sa, nb) = (str_operand(&a)?, num_operand(&b, 1000, 1)?);
+            Some(guarded(|| match sa.multiply(&nb) {
+                Ok(r) => if !consistent(&r) { "ok <inconsistent array>".to_string() } else { decode_multiply(&r).map_or(format!("ok <undecodable {:?}>", r.get_elements().unwrap()), |t| format!("ok {}", t)) },
+                Err(e) => format!("err {}", err_name(&e)),
+            }))
+        }
+        "h3" => {
+            let (a, b, c) = (parse_arr_i64(args[0]), parse_arr_i64(args[1]), parse_arr_i64(args[2]));
+            let (sa, nb, cc) = (str_operand(&a)?, num_operand(&b, 1000, W + 1)?, char_operand(&c, 2000)?);
+            Some(guarded(|| match sa.ljust(&nb, Some(cc.clone())) {
+                Ok(r) => if !consistent(&r) { "ok <inconsistent array>".to_string() } else { decode_ljust(&r).map_or(format!("ok <undecodable {:?}>", r.get_elements().unwrap()), |t| format!("ok {}", t)) },
+                Err(e) => format!("err {}", err_name(&e)),
+            }))
+        }
+        _ => { let c = parse_call(op, args)?; Some(show_out(&call::<I64>(&c, false)?)) }
+    }
+}
+
+/// `n <call>`: the model answers only the result shape; the values are compared with the harness-native reference
+fn exec_n(args: &[&str], expected: &str) -> Option<Verdict> {
+    let c = parse_call(args.first()?, &args[1..])?;
+    let o = oracle(&c)?;          // `n` lines are only generated where the reference has an opinion
+    ORACLE_ONLY.fetch_add(1, Ordering::Relaxed);
+    let o_shape = match &o { Out::Ok(Ans::Arr(p)) => Some(p.shape.clone()), Out::Ok(Ans::Pairs(p)) => Some(p.shape.clone()), Out::Ok(Ans::List(v)) => Some(v[0].shape.clone()), _ => None };
+    let model_shape = expected.strip_prefix("shape ").map(parse_usize_list);
+    if class_of(expected) == "other" && model_shape.is_none() { return None; }
+    if o_shape != model_shape {
+        return Some(Verdict::Mismatch { observed: format!("reference shape {:?}", o_shape), detail: format!("ORACLE-VS-MODEL the harness-native reference and the model (`{expected}`) disagree about the result shape (harness defect)") });
+    }
+    let base = call::<I64>(&c, false)?;
+    let size = match &base { Out::Ok(Ans::Arr(p)) => p.elems.len(), Out::Ok(Ans::Pairs(p)) => p.elems.len(), Out::Ok(Ans::List(v)) => v.iter().map(|p| p.elems.len()).sum(), _ => 0 };
+    let text = truncate(&show_out(&base), 300);
+    if let Some(d) = differs(&base, &o) {
+        return Some(Verdict::Mismatch { observed: text, detail: format!("the crate gives {d} (reference: direct coordinate formula of the harness, validated against the model on the other cases of this run; model shape `{expected}`)") });
+    }
+    if let Some(d) = robust(&c, &base, size) { return Some(Verdict::Mismatch { observed: format!("{d}; plain Array<i64> call: {text}"), detail: "divergence between receivers / element types / repeated calls".into() }); }
+    Some(Verdict::Match(format!("ok {expected} (values as the harness-native reference)")))
+}
+
+/// `seq call / call / …`: the calls are executed one after the other on this thread, each compared with the model
+fn exec_seq(args: &[&str], expected: &str) -> Option<Verdict> {
+    let parts: Vec<&[&str]> = args.split(|&a| a == "/").collect();
+    let exps: Vec<&str> = expected.split(" / ").collect();
+    if parts.len() != exps.len() { return None; }
+    let (mut texts, mut open) = (vec![], false);
+    for (k, (p, e)) in parts.iter().zip(&exps).enumerate() {
+        let (v, _) = exec_single(p.first()?, &p[1..], e)?;
+        match v {
+            Verdict::Match(o) => texts.push(truncate(&o, 200)),
+            Verdict::Open(o) => { open = true; texts.push(truncate(&o, 200)); }
+            Verdict::Mismatch { observed, detail } => {
+                texts.push(truncate(&observed, 600));
+                return Some(Verdict::Mismatch { observed: texts.join(" / "), detail: format!("call {} of the sequence (`{}`), executed after the calls before it on the same thread: {detail}", k + 1, p.join(" ")) });
+            }
+        }
+    }
+    Some(if open { Verdict::Open(texts.join(" / ")) } else { Verdict::Match(texts.join(" / ")) })
+}
+
+thread_local! {
+    /// the previous case of this thread and its canonical answer (A-B-A discipline)
+    static PREV: RefCell<Option<(String, Vec<String>, String)>> = RefCell::new(None);
+}
+
+fn exec(op: &str, args: &[&str], expected: &str) -> Option<Verdict> {
+    match op {
+        "seq" => { PREV.with(|p| *p.borrow_mut() = None); return exec_seq(args, expected); }
+        "n" => { PREV.with(|p| *p.borrow_mut() = None); return exec_n(args, expected); }
+        "oracle_report" => {
+            let (n, silent, only, aba) = (ORACLE_CHECKED.load(Ordering::Relaxed), ORACLE_SILENT.load(Ordering::Relaxed), ORACLE_ONLY.load(Ordering::Relaxed), ABA_RERUNS.load(Ordering::Relaxed));
+            let text = format!("ok report: so far the harness-native reference agreed with the full model answer on {n} cases (no opinion on {silent}), {only} huge cases compared with the reference only, {aba} A-B-A re-runs");
+            // the last line of a run: the chain model -> reference -> crate must really have been exercised
+            if args.first() == Some(&"final") && n < 1000 { return Some(Verdict::Mismatch { observed: text, detail: "the reference was compared with the model on fewer than 1000 cases".into() }); }
+            return Some(Verdict::Match(text));
+        }
+        _ => {}
+    }
+    let (v, plain) = exec_single(op, args, expected)?;
+    // A-B-A: after this case (B), the previous case (A) is executed again and must give what it gave before B
+    let prev = PREV.with(|p| p.borrow_mut().take());
+    let mut v = v;
+    if let Some((pop, pargs, ptext)) = prev {
+        let pa: Vec<&str> = pargs.iter().map(String::as_str).collect();
+        if let Some(again) = plain_text(&pop, &pa) {
+            ABA_RERUNS.fetch_add(1, Ordering::Relaxed);
+            if again != ptext && !matches!(v, Verdict::Mismatch { .. }) {
+                let a_line = format!("{pop} {}", pargs.join(" "));
+                v = Verdict::Mismatch { observed: format!("STATE-DIVERGENCE `{a_line}` executed again after this case gives `{}`", truncate(&again, 400)),
+                    detail: format!("before this case the same call gave `{}`; self-contained replay: seq {a_line} / {op} {} / {a_line}", truncate(&ptext, 400), args.join(" ")) };
+            }
+        }
+    }
+    // remember this case when its answer is of moderate size
+    if plain.len() <= 100_000 { PREV.with(|p| *p.borrow_mut() = Some((op.to_string(), args.iter().map(|s| s.to_string()).collect(), plain))); }
+    Some(v)
+}
+
 /// non-trivial: some operand is really stretched along an axis whose target length is > 1
 fn nontrivial(op: &str, args: &[&str]) -> bool {
+    match op {
+        "seq" => return args.split(|&a| a == "/").any(|p| !p.is_empty() && nontrivial(p[0], &p[1..])),
+        "n" => return !args.is_empty() && nontrivial(args[0], &args[1..]),
+        "oracle_report" => return false,
+        _ => {}
+    }
     let shapes_of = |s: &str| -> Vec<Vec<usize>> { if s == "-" { vec![] } else { s.split(';').map(|x| parse_arr_raw(x).0).collect() } };
     let ss: Vec<Vec<usize>> = match op {
         "broadcast_to" => vec![parse_arr_raw(args[0]).0, parse_usize_list(args[1])],
